@@ -1,0 +1,93 @@
+//go:build verif
+// +build verif
+
+package band
+
+// Read-only verification hooks. This file only exists for the compiler when
+// the "verif" build tag is set; it adds no behaviour to the package and is
+// never referenced by non-verif code.
+
+// VerifDataRate is a copy of a DataRate including the unexported direction
+// flags.
+type VerifDataRate struct {
+	DataRate
+	Uplink   bool
+	Downlink bool
+}
+
+// VerifChannel is a copy of a Channel including the unexported state flags.
+type VerifChannel struct {
+	Frequency uint32
+	MinDR     int
+	MaxDR     int
+	Enabled   bool
+	Custom    bool
+}
+
+// VerifSnapshot is a deep copy of the internal tables of a band.
+type VerifSnapshot struct {
+	SupportsExtraChannels bool
+	CFListMinDR           int
+	CFListMaxDR           int
+	DataRates             map[int]VerifDataRate
+	MaxPayloadSizePerDR   map[string]map[string]map[int]MaxPayloadSize
+	RX1DataRateTable      map[int][]int
+	UplinkChannels        []VerifChannel
+	DownlinkChannels      []VerifChannel
+	TXPowerOffsets        []int
+	Latest                string
+}
+
+type verifSnapshotter interface {
+	verifSnapshot() VerifSnapshot
+}
+
+// VerifSnapshotOf returns a deep copy of the internal tables of the given
+// band. The bool is false when b is not one of the band types of this package.
+func VerifSnapshotOf(b Band) (VerifSnapshot, bool) {
+	s, ok := b.(verifSnapshotter)
+	if !ok {
+		return VerifSnapshot{}, false
+	}
+	return s.verifSnapshot(), true
+}
+
+func (b *band) verifSnapshot() VerifSnapshot {
+	out := VerifSnapshot{
+		SupportsExtraChannels: b.supportsExtraChannels,
+		CFListMinDR:           b.cFListMinDR,
+		CFListMaxDR:           b.cFListMaxDR,
+		DataRates:             make(map[int]VerifDataRate),
+		MaxPayloadSizePerDR:   make(map[string]map[string]map[int]MaxPayloadSize),
+		RX1DataRateTable:      make(map[int][]int),
+		Latest:                latest,
+	}
+
+	for i, d := range b.dataRates {
+		out.DataRates[i] = VerifDataRate{DataRate: d, Uplink: d.uplink, Downlink: d.downlink}
+	}
+
+	for v, revs := range b.maxPayloadSizePerDR {
+		out.MaxPayloadSizePerDR[v] = make(map[string]map[int]MaxPayloadSize)
+		for r, drs := range revs {
+			out.MaxPayloadSizePerDR[v][r] = make(map[int]MaxPayloadSize)
+			for dr, ps := range drs {
+				out.MaxPayloadSizePerDR[v][r][dr] = ps
+			}
+		}
+	}
+
+	for dr, row := range b.rx1DataRateTable {
+		out.RX1DataRateTable[dr] = append([]int(nil), row...)
+	}
+
+	for _, c := range b.uplinkChannels {
+		out.UplinkChannels = append(out.UplinkChannels, VerifChannel{c.Frequency, c.MinDR, c.MaxDR, c.enabled, c.custom})
+	}
+	for _, c := range b.downlinkChannels {
+		out.DownlinkChannels = append(out.DownlinkChannels, VerifChannel{c.Frequency, c.MinDR, c.MaxDR, c.enabled, c.custom})
+	}
+	out.TXPowerOffsets = append([]int(nil), b.txPowerOffsets...)
+
+	return out
+}
